@@ -52,8 +52,9 @@ def share_encoder_parameters(
     # up statically and no longer sees sub-modules registered through nn.Module.__setattr__,
     # so we check for the encoder / head_net attributes directly
     def _is_evolvable_network(net: Any) -> bool:
-        return isinstance(net, Module) and all(
-            hasattr(net, attr) for attr in ("encoder", "head_net")
+        return isinstance(net, EvolvableNetwork) or (
+            isinstance(net, Module)
+            and all(hasattr(net, attr) for attr in ("encoder", "head_net"))
         )
 
     assert _is_evolvable_network(policy), "Policy must be an EvolvableNetwork"
